@@ -44,11 +44,14 @@ def open_fds():
     return set(int(n) for n in os.listdir('/proc/self/fd'))
 
 
-def close_fds_since(before):
+def close_fds_since(before, collect=True):
     """close descriptors the implementation opened and never closes (treadmill's Inotify / eventfd objects have no
-    finaliser): without this a long series of histories runs into the per-user inotify instance limit."""
-    import gc
-    gc.collect()
+    finaliser): without this a long series of histories runs into the per-user inotify instance limit. `collect`: run
+    the garbage collector first, so that objects which DO close their descriptor when finalised (sockets) have done so
+    before the number can be re-used (callers with a large heap wrap the series in gc.freeze())."""
+    if collect:
+        import gc
+        gc.collect()
     for fd in open_fds() - before:
         try:
             os.close(fd)
